@@ -319,6 +319,8 @@ impl Module {
         section: wasmparser::FunctionSectionReader,
         ids: &mut IndicesToIds,
     ) -> Result<()> {
+        #[cfg(walrus_verif)]
+        crate::verif::emit("interpret", "function", -1, -1);
         log::debug!("parse function section");
         for func in section {
             let ty = ids.get_type(func?)?;
@@ -342,6 +344,8 @@ impl Module {
         indices: &mut IndicesToIds,
         on_instr_pos: Option<&(dyn Fn(&usize) -> InstrLocId + Sync + Send + 'static)>,
     ) -> Result<()> {
+        #[cfg(walrus_verif)]
+        crate::verif::emit("interpret", "code", -1, -1);
         log::debug!("parse code section");
         let num_imports = self.funcs.arena.len() - functions.len();
 
@@ -404,6 +408,8 @@ impl Module {
         // take some time, so parse all function bodies in parallel.
         let results = maybe_parallel!(bodies.(into_iter | into_par_iter))
             .map(|(id, body, args, ty, validator)| {
+                #[cfg(walrus_verif)]
+                crate::verif::emit("job", "parse", id.index() as i64, -1);
                 (
                     id,
                     LocalFunction::parse(
@@ -618,6 +624,8 @@ impl Emit for ModuleFunctions {
         let bytes = maybe_parallel!(functions.(into_iter | into_par_iter))
             .map(|(id, func, _size)| {
                 log::debug!("emit function {:?} {:?}", id, cx.module.funcs.get(id).name);
+                #[cfg(walrus_verif)]
+                crate::verif::emit("job", "emit", id.index() as i64, -1);
                 let mut wasm = Vec::new();
                 let mut map = if generate_map { Some(Vec::new()) } else { None };
 
